@@ -28,6 +28,7 @@ type c17dCfg struct {
 	Finalize  bool
 	Method    string
 	Verbose   bool
+	Bare      bool // the finalize answer carries nothing but `finalized` (no labels, annotations, status)
 }
 
 func c17dBuild(cfg c17dCfg) *dworld {
@@ -53,6 +54,9 @@ func c17dBuild(cfg c17dCfg) *dworld {
 		if fin, _ := req["finalizing"].(bool); fin {
 			out["attachments"] = kit.L{}
 			out["finalized"] = len(kit.Map(req, "attachments", "Leaf.v1")) == 0
+			if cfg.Bare {
+				return kit.M{"attachments": kit.L{}, "finalized": out["finalized"]}
+			}
 		}
 		return out
 	})
@@ -149,8 +153,12 @@ func TestVerifC17(t *testing.T) {
 	for _, cust := range []bool{false, true} {
 		for _, fin := range []bool{false, true} {
 			for _, method := range []string{"InPlace", "Recreate"} {
-				for _, verbose := range []bool{false, true} {
-					cfg := c17dCfg{Customize: cust, Finalize: fin, Method: method, Verbose: verbose}
+				for vb := 0; vb < 3; vb++ {
+					verbose := vb == 1
+					if vb == 2 && !fin {
+						continue
+					}
+					cfg := c17dCfg{Customize: cust, Finalize: fin, Method: method, Verbose: verbose, Bare: vb == 2}
 					total := c17dHistory(c17dBuild(cfg), steps, -1, nil)
 					for fault := -1; fault < total; fault++ {
 						idx++
